@@ -415,7 +415,8 @@ fn trusted_line(flags: ConsensusFlags, program: &[u8], refs: &[Vec<u8>]) -> Stri
 }
 
 /// C09 stated on the implementation alone
-fn oracle09(flags: ConsensusFlags, max_cost: u64, program: &[u8], refs: &[Vec<u8>]) -> String {
+fn oracle09(flags: ConsensusFlags, max_cost: u64, program: &[u8], refs: &[Vec<u8>], lenient: bool) -> String {
+    let mut pending: Vec<String> = vec![];
     let (a, conds) = match run_block_generator2(program, refs, max_cost, flags, &Signature::default(), None, &TEST_CONSTANTS) {
         Ok(x) => x,
         Err(_) => return "OK rejected".into(),
@@ -453,6 +454,13 @@ fn oracle09(flags: ConsensusFlags, max_cost: u64, program: &[u8], refs: &[Vec<u8
             } else {
                 for (w, g) in want.iter().zip(got.iter()) {
                     if w.1 != g.1 {
+                        if lenient && w.1 == "N" && g.1 == "S:-" {
+                            // candidate finding F-C09-1: empty-atom first memo
+                            if pending.is_empty() || pending[0] != "empty-memo-hint" {
+                                pending.insert(0, "empty-memo-hint".into());
+                            }
+                            continue;
+                        }
                         fails.push(format!("hint-differs:validated={}:helper={}", w.1, g.1));
                         break;
                     }
@@ -471,7 +479,8 @@ fn oracle09(flags: ConsensusFlags, max_cost: u64, program: &[u8], refs: &[Vec<u8
                 fails.push("coinspend-coins-differ".into());
             }
             let too_big = cs.iter().any(|c| c.puzzle_reveal.as_ref() == [0x80] || c.solution.as_ref().len() >= 2000000);
-            match solution_generator(cs.iter().map(|c| (c.coin, c.puzzle_reveal.as_ref().to_vec(), c.solution.as_ref().to_vec()))) {
+            // build_generator conses onto the front: feed the spends in reverse to keep their order
+            match solution_generator(cs.iter().rev().map(|c| (c.coin, c.puzzle_reveal.as_ref().to_vec(), c.solution.as_ref().to_vec()))) {
                 Err(_) => {
                     if !too_big {
                         fails.push("rebuild-fails".into())
@@ -494,7 +503,7 @@ fn oracle09(flags: ConsensusFlags, max_cost: u64, program: &[u8], refs: &[Vec<u8
                             x.execution_cost = 0;
                             y.execution_cost = 0;
                             if render_bundle(&x, "-") != render_bundle(&y, "-") {
-                                fails.push(format!("rebuilt-generator-conditions-differ[{}][{}]", render_bundle(&x, "-").replace(' ', "_"), render_bundle(&y, "-").replace(' ', "_")));
+                                fails.push("rebuilt-generator-conditions-differ".into());
                             }
                         }
                     }
@@ -533,11 +542,15 @@ fn oracle09(flags: ConsensusFlags, max_cost: u64, program: &[u8], refs: &[Vec<u8
             Ok(out) => {
                 // expected: the i-th spend tuple of the output
                 let mut tuples = vec![];
+                let mut has_extras = false;
                 if let Some((mut iter, _)) = a.next(out) {
                     while let Some((spend, rest)) = a.next(iter) {
                         iter = rest;
-                        if let Some([_, p, _, s, _]) = extract_n::<5>(&a, spend) {
+                        if let Some([_, p, _, s, ex]) = extract_n::<5>(&a, spend) {
                             tuples.push((p, s));
+                            if !(matches!(a.sexp(ex), SExp::Atom) && a.atom_len(ex) == 0) {
+                                has_extras = true;
+                            }
                         }
                     }
                 }
@@ -545,6 +558,11 @@ fn oracle09(flags: ConsensusFlags, max_cost: u64, program: &[u8], refs: &[Vec<u8
                     let c = Coin::new(s.parent_id, s.puzzle_hash, s.coin_amount);
                     match get_puzzle_and_solution_for_coin(&a, out, &c) {
                         Err(_) => {
+                            if lenient && has_extras {
+                                // candidate finding F-C09-2: spend-level extras make the lookup reject
+                                pending.push("lookup-with-spend-extras".into());
+                                break;
+                            }
                             fails.push(format!("lookup-fails:{}", i));
                             break;
                         }
@@ -560,7 +578,7 @@ fn oracle09(flags: ConsensusFlags, max_cost: u64, program: &[u8], refs: &[Vec<u8
         }
     }
     if fails.is_empty() {
-        format!("OK accepted spends={}", o.spends.len())
+        format!("OK accepted spends={}{}", o.spends.len(), if pending.is_empty() { "".to_string() } else { format!(" pending-class={}", pending.join(",")) })
     } else {
         format!("FAIL {}", fails.join(" "))
     }
@@ -696,7 +714,8 @@ fn run(name: &str, args: &[String]) -> Option<String> {
             let max_cost = dec(&args[1]);
             let program = hx(&args[2]);
             let refs = parse_refs(&args[3]);
-            Some(oracle09(flags, max_cost, &program, &refs))
+            let lenient = args.len() > 4 && args[4] == "lenient";
+            Some(oracle09(flags, max_cost, &program, &refs, lenient))
         }
         "gen.consts" => {
             let k = &TEST_CONSTANTS;
